@@ -6,7 +6,8 @@ from props import C05
 
 LEVEL = "proof"
 G_UNITS = {"cmp_flags": ["lemma_c02_accepted_is_coherent", "HelperAttributesForCompareOp::is_ignore", "HelperAttributesForCompareOp::is_reverse",
-                         "HelperAttributesForCompareOp::bad_attr", "CompareOp::is_effects_to"]}
+                         "HelperAttributesForCompareOp::bad_attr", "CompareOp::is_effects_to"],
+           "cmp_select": ["build_partial_eq_expr", "build_eq_expr", "build_partial_ord_expr", "build_ord_expr", "build_hash_expr"]}
 FULL = ["PartialEq", "Eq", "PartialOrd", "Ord", "Hash"]
 
 
